@@ -1447,6 +1447,11 @@ def resume_from_checkpoint(
         if simulation_class_kwargs is None:
             simulation_class_kwargs = {}
         del sim  # free memory
+        # `sequential` is passed explicitly; the `output_filename` in the options is the one generated for the
+        # simulation just finished: the following ones derive their own from `output_filename_params`
+        options = {k: v for k, v in options.as_dict().items() if k != 'sequential'}
+        if options.get('output_filename_params') is not None:
+            options.pop('output_filename', None)
         return run_seq_simulations(sequential, SimClass, simulation_class_kwargs, resume_data=resume_data, **options)
     return results
 
